@@ -232,15 +232,22 @@ func (r *c9Runner) evalClient(c *c9ClientRun, segFirst map[*c9AU]*c9AU) {
 		fail("F10-unsupported-codec-string:", "the client rejects the muxer's own multivariant playlist (CODECS=%q): \"no variants with supported codecs found\"", strings.Join(cs, " | "))
 		return
 	case "err:noleading":
-		var empties []string
-		for _, s := range c.served {
+		lastEmpty, lastZero := -1, -1
+		for i, s := range c.served {
 			if s.empty {
-				empties = append(empties, strings.TrimPrefix(s.path, "/"))
+				lastEmpty = i
+			}
+			if s.zero {
+				lastZero = i
 			}
 		}
-		if len(empties) > 0 {
-			fail("F15-empty-rendition-part:", "client fatal \"could not find data of leading track\" after the muxer served %s without any sample of the stream's only track", c9Canonical(empties[len(empties)-1]))
-		} else {
+		switch {
+		case lastEmpty > lastZero:
+			fail("F15-empty-rendition-part:", "client fatal \"could not find data of leading track\" after the muxer served %s without any sample of the stream's only track", c9Canonical(strings.TrimPrefix(c.served[lastEmpty].path, "/")))
+		case lastZero >= 0:
+			// timing: the (slow) client asked for a preload hint whose part had left the window meanwhile; the
+			// placeholder handler finds no handler and writes nothing (200, empty body). Same class as `gone`.
+		default:
 			fail("", "client fatal \"could not find data of leading track\" although every served part/segment carried samples")
 		}
 	case "err:targetduration0":
